@@ -267,6 +267,47 @@ def correspond(ctx, scale):
                 failures.append({'key': f'{pname}:padded:not-minus-one', 'what': f'{info}: a padded entry carries an index other than -1', 'case': dict(name=pname, step=step)})
             if not bool(((idx[vm] >= 0) & (idx[vm] < K)).all()):
                 failures.append({'key': f'{pname}:padded:valid-out-of-range', 'what': f'{info}: a valid entry carries an index outside [0, {K}) (min {int(idx[vm].min())})', 'case': dict(name=pname, step=step)})
+    # all-pairs sweep over per-call options and the ambient context of the call (vlib/callzoo.py): whatever the options, the quantized output has
+    # the shape of the input, indices the documented shape / an integer dtype / -1 exactly at padded entries, the loss its documented shape
+    from vlib import callzoo
+    cz_cfgs = [('vq', dict(dim=4, codebook_size=6), 4, 1, None), ('vq-heads', dict(dim=4, codebook_size=6, heads=2, codebook_dim=2), 4, 2, None),
+               ('vq-heads-sep', dict(dim=4, codebook_size=6, heads=2, codebook_dim=2, separate_codebook_per_head=True), 4, 2, None),
+               ('vq-proj-cosine', dict(dim=5, codebook_size=6, codebook_dim=2, use_cosine_sim=True), 5, 1, None),
+               ('vq-stochastic', dict(dim=3, codebook_size=6, stochastic_sample_codes=True, sample_codebook_temp=0.5), 3, 1, None),
+               ('rvq', dict(dim=3, num_quantizers=3, codebook_size=6), 3, 1, 3)]
+    for cname, ckw, cdim, cheads, cnq in cz_cfgs:
+        for v in callzoo.variants():
+            for train in (False, True):
+                mod = (ResidualVQ if cnq else VectorQuantize)(**ckw)
+                mod.train(train)
+                x, kw_c, cm, valid = callzoo.build_call(v, torch, cdim, heads=cheads, K=6, nq=cnq)
+                info = f'{cname} train={train} {callzoo.label(v)}'
+                ev += 1
+                dist['call_option_sweep'] = dist.get('call_option_sweep', 0) + 1
+                try:
+                    with torch.no_grad():
+                        ref = mod(torch.randn_like(x.detach()))
+                    with cm():
+                        ret = mod(x, **kw_c)
+                except Exception as ex:
+                    dist['call_option_rejected'] = dist.get('call_option_rejected', 0) + 1     # a combination the library refuses loudly is not a silent shape change
+                    continue
+                out = ret[0]
+                if tuple(out.shape) != tuple(x.shape):
+                    failures.append({'key': f'{cname}:call-options:output-shape:target={v["target"]}', 'what': f'{info}: quantized output has shape {tuple(out.shape)}, the input {tuple(x.shape)}', 'case': dict(name=cname, variant=v, train=train)})
+                    continue
+                if 'indices' in kw_c:
+                    continue
+                idx = ret[1]
+                if tuple(idx.shape) != tuple(ref[1].shape) or idx.dtype not in (torch.int32, torch.int64):
+                    failures.append({'key': f'{cname}:call-options:index-shape', 'what': f'{info}: indices {tuple(idx.shape)} / {idx.dtype}, documented {tuple(ref[1].shape)} integer', 'case': dict(name=cname, variant=v, train=train)})
+                    continue
+                vm = torch.ones(x.shape[:2], dtype=torch.bool) if valid is None else valid
+                vmx = vm.reshape(*vm.shape, *([1] * (idx.ndim - 2))).expand_as(idx)
+                if not bool((idx[~vmx] == -1).all()) or not bool(((idx[vmx] >= 0) & (idx[vmx] < 6)).all()):
+                    failures.append({'key': f'{cname}:call-options:index-values', 'what': f'{info}: indices are not -1 exactly at the padded entries / in [0, 6) at the valid ones', 'case': dict(name=cname, variant=v, train=train)})
+                if tuple(ret[2].shape) != tuple(ref[2].shape):
+                    failures.append({'key': f'{cname}:call-options:loss-shape', 'what': f'{info}: loss shape {tuple(ret[2].shape)}, documented {tuple(ref[2].shape)}', 'case': dict(name=cname, variant=v, train=train)})
     bad, broken = core.run_cases(ctx, 'c13', HEADER, cases, per_file=400)
     for name, out in broken:
         failures.append({'key': f'coq-eval:{name}', 'what': 'case file did not evaluate: ' + out, 'case': {'file': name}})
